@@ -435,10 +435,22 @@ class Kernel:
     def _die(self, p):
         how = 'terminated' if p.term_pending and p.kill_at_seam is None else 'killed'
         if how == 'killed':
-            self.fault_fired['kill'] += 1
+            self.fault_fired['driver_crash' if p.role == 'parent' else 'kill'] += 1
         p.kill_at_seam = None
         p.dead = True
         self.proc_exit(p, how)
+        if p.role == 'parent':
+            # the whole job dies (kill of the process group, Ctrl-C, reboot): the workers of its pools go with it - each at its
+            # next system call, with whatever sits in its buffers
+            for pool in self.pools:
+                if pool.owner is p:
+                    pool.broken = True
+                    pool.queue.clear()
+                    for w in pool.workers:
+                        if w.state != 'done' and not w.dead:
+                            w.term_pending = True
+                            if w.state == 'blocked':
+                                w.pred = lambda: True
         for pool in self.pools:
             pool._worker_died(p)
         raise ProcKilled()
@@ -971,6 +983,13 @@ class SimPool:
             self.start_method = 'spawn'
         if max_tasks_per_child is not None and self.start_method == 'fork':
             raise ValueError("max_tasks_per_child is incompatible with the 'fork' multiprocessing start method")
+        self.preloaded = False
+        if self.start_method == 'forkserver':
+            try:
+                import multiprocessing.forkserver as _fs
+                self.preloaded = bool(_fs._forkserver._preload_modules)
+            except Exception:  # noqa: BLE001
+                pass
         self._nspawn = 0
         self.queue = collections.deque()
         self.tasks = []
@@ -1060,6 +1079,22 @@ class SimPool:
     # -- internals --------------------------------------------------------------------
     def _child_priv(self, snap):
         v = snap.fork()
+        if self.start_method == 'forkserver' and self.preloaded:
+            # workers are forks of the fork server, which imported the preloaded modules (and with them numpy) ONCE: every
+            # worker starts from the server's generator state; the server lives as long as the process that started it, so
+            # later pools of the same process get the same state again
+            import numpy as np
+            k = self.k
+            own = self.owner.image
+            st = getattr(own, 'forkserver_state', None)
+            if st is None:
+                h = hashlib.sha256(f'forkserver/{k.run_seed}/{own.pid}'.encode()).digest()
+                st = (np.random.RandomState(int.from_bytes(h[:4], 'little')).get_state(), _random.Random(h).getstate())
+                own.forkserver_state = st
+                k.probes['fork_server_started_with_preload'] += 1
+            v.np_state, v.py_state = st
+            v.extra = {}
+            return v
         if self.start_method != 'fork':
             # a spawned interpreter seeds its generators from OS entropy
             import numpy as np
@@ -1160,7 +1195,27 @@ class SimPool:
                     t.outcome = ('raised', type(e).__name__, str(e)[:300])
                     k.note('task_end', task=t.idx, worker=p.pid, ok=False, exc=type(e).__name__, msg=str(e)[:300])
                     k.seam('result', f'task{t.idx} raised {type(e).__name__}')
-                    t.future.set_exception(e)
+                    if pool.shares_state:
+                        t.future.set_exception(e)
+                    else:
+                        # the exception travels to the parent as a pickle.  If it cannot be pickled the worker reports that
+                        # instead; if the parent cannot UNPICKLE it (e.g. a constructor with required extra arguments) the
+                        # parent's result reader fails: CPython declares the pool broken, every pending future gets
+                        # BrokenProcessPool and all workers are terminated
+                        try:
+                            eblob = pickle.dumps(e)
+                        except Exception as pe:  # noqa: BLE001
+                            t.future.set_exception(pe)
+                        else:
+                            try:
+                                e2 = pickle.loads(eblob)
+                            except BaseException as ue:  # noqa: BLE001
+                                k.probes['parent_could_not_unpickle_a_result'] += 1
+                                k.record('pool-reader-failed', f'{type(ue).__name__} while unpickling {type(e).__name__}')
+                                pool._worker_died(p, reader_failed=True)
+                                p.term_pending = True
+                            else:
+                                t.future.set_exception(e2)
                 else:
                     t.outcome = ('ok',)
                     k.note('task_end', task=t.idx, worker=p.pid, ok=True)
@@ -1176,9 +1231,9 @@ class SimPool:
             k.proc_exit(p, 'os._exit')
         return worker_main
 
-    def _worker_died(self, p):
-        """a worker vanished without going through the normal exit: CPython marks the pool broken,
-        fails every pending future and terminates the remaining workers."""
+    def _worker_died(self, p, reader_failed=False):
+        """a worker vanished without going through the normal exit (or the parent's result reader failed): CPython marks the
+        pool broken, fails every pending future and terminates the remaining workers."""
         if p not in self.workers or self.broken:
             return
         self.broken = True
@@ -1688,6 +1743,30 @@ def install():
     _cf_base.as_completed = _sim_as_completed
     _cf.wait = _sim_wait
     _cf_base.wait = _sim_wait
+
+    # how many threads the calling process has is part of its environment (a service with a heartbeat thread, a notebook
+    # kernel, a debugger): a simulated process sees its own main thread plus `host_threads - 1` others, never the simulator's
+    _real['threading.active_count'] = threading.active_count
+    _real['threading.enumerate'] = threading.enumerate
+
+    def _host_threads(p):
+        n = p.kernel.cfg.get('host_threads', 1) if p.role == 'parent' and p.image is p else 1
+        return max(1, int(n))
+
+    def active_count():
+        p = cur()
+        if p is None:
+            return _real['threading.active_count']()
+        return _host_threads(p)
+
+    def enumerate_():
+        p = cur()
+        if p is None:
+            return _real['threading.enumerate']()
+        others = [threading.Thread(name=f'host-thread-{i}', daemon=True) for i in range(_host_threads(p) - 1)]
+        return [threading.current_thread()] + others
+    threading.active_count = active_count
+    threading.enumerate = enumerate_
 
     def thread_start(self):
         if cur() is not None:
